@@ -8,6 +8,8 @@ Draw encoding (shared with spec/Moves.tla): random() -> float; randint(a,b) -> i
 *positions* in pop; shuffle(lst) -> the permutation p such that lst becomes [sorted(lst)[p[j]] for j].  A tape that runs
 out raises TapeExhausted, which bounds the unbounded retry loops of the library."""
 import random
+import random as _random_module
+_REAL = _random_module.Random(0)
 
 
 class TapeExhausted(Exception):
@@ -41,6 +43,7 @@ class _TapeRandom:
         return d[1]
 
     def sample(self, pop, k):
+        _REAL.sample(pop, 0)          # the interpreter's own argument check (a set is refused since Python 3.11)
         pop = list(pop)
         if k > len(pop):
             raise ValueError("Sample larger than population or is negative")
@@ -110,6 +113,7 @@ class _RecRandom:
 
     def sample(self, pop, k):
         self._budget()
+        _REAL.sample(pop, 0)          # the interpreter's own argument check (a set is refused since Python 3.11)
         pop = list(pop)
         pos = self.o.r.sample(range(len(pop)), k)
         self.o.log.append(["sample", pos])
